@@ -312,9 +312,17 @@ func sprintf(i *interpreter, fr *frame, format value, args []value) []value {
 			continue
 		}
 		if strings.Contains(flags, "*") {
-			w := asInt64(args[argi].(iface).v)
-			argi++
-			flags = strings.Replace(flags, "*", fmt.Sprint(w), 1)
+			if argi >= len(args) {
+				out = append(out, strToBytes("%!(BADWIDTH)")...)
+				flags = strings.Replace(flags, "*", "", 1)
+			} else if u, _, isInt := intInfo(cint(args[argi].(iface).v)); isInt {
+				argi++
+				flags = strings.Replace(flags, "*", fmt.Sprint(int64(u)), 1)
+			} else {
+				argi++
+				out = append(out, strToBytes("%!(BADWIDTH)")...)
+				flags = strings.Replace(flags, "*", "", 1)
+			}
 		}
 		if argi >= len(args) {
 			out = append(out, strToBytes("%!"+string(verb)+"(MISSING)")...)
